@@ -447,7 +447,13 @@ static void op_rw(void) {
         int nrew = 0;
         int status = http_request_parse_target(r, sport);
         if (status) { if (want_trace) puts("trace ."); else printf("status %d 0\n", status); buffer_free(table); goto out; }
+        int toolong = 0;
         for (int iter = 0; iter < 400; ++iter) {
+            if (want_trace && buffer_clen(&r->target) > 4096) {
+                /* exponentially growing rewrite (e.g. "$0$0"): the generator drops such cases */
+                toolong = 1;
+                break;
+            }
             if (want_trace && R.n) {
                 if (buffer_clen(table)) buffer_append_char(table, '|');
                 append_hex(table, &r->target);
@@ -469,7 +475,8 @@ static void op_rw(void) {
             else printf("failed %d\n", nrew);
             break;
         }
-        if (want_trace) printf("trace %s\n", buffer_clen(table) ? table->ptr : ".");
+        if (toolong) puts("toolong");
+        else if (want_trace) printf("trace %s\n", buffer_clen(table) ? table->ptr : ".");
         buffer_free(table);
         r->plugin_ctx[p.id] = NULL;
     }
